@@ -68,18 +68,24 @@ AT5_AC = dict(power_code=[0, 1, 2, 3, 5], mode_code=[0, 1, 2, 3, 4, 8, 9],
                      for s in (False, True)], timer=[False, True])
 
 
+def _ac_temp(rnd):
+    # mostly defined temperatures; sometimes the out-of-range raw values (above 150 degC, all
+    # ones) - what they read as is C05's subject, but repeats of them are still repeats
+    return rnd.choice([rnd.randint(0, 2000)] * 5 + [2047, 2001, rnd.randint(2001, 2047)])
+
+
 def rand_ac(gen, rnd, ac, combo=None):
     if gen == 4:
         c = combo or {k: rnd.choice(v) for k, v in AT4_AC.items()}
         return {"ac": ac, "power": c["power"], "mode_code": c["mode_code"],
                 "fan_code": c["fan_code"], "spill": c["spill"], "timer": c["timer"],
-                "set_point": rnd.randint(0, 63), "temp_raw11": rnd.randint(0, 2000),
+                "set_point": rnd.randint(0, 63), "temp_raw11": _ac_temp(rnd),
                 "error": rnd.choice([0, 0, 0, 7, 0x1234])}
     c = combo or {k: rnd.choice(v) for k, v in AT5_AC.items()}
     t, b, s = c["flags"]
     return {"ac": ac, "power_code": c["power_code"], "mode_code": c["mode_code"],
             "fan_code": c["fan_code"], "sp_raw": rnd.randint(0, 250), "turbo": t, "bypass": b,
-            "spill": s, "timer": c["timer"], "temp_raw11": rnd.randint(0, 2000),
+            "spill": s, "timer": c["timer"], "temp_raw11": _ac_temp(rnd),
             "error": rnd.choice([0, 0, 0, 7, 0x1234])}
 
 
